@@ -1716,6 +1716,17 @@ pub async fn serve_sync(
                     Ok(Some(msg)) => match msg {
                         SyncMessage::V1(SyncMessageV1::Request(req)) => {
                             trace!(actor_id = %their_actor_id, self_actor_id = %agent.actor_id(), "read req: {req:?}");
+                            #[cfg(feature = "verif")]
+                            klukai_types::verif::emit(
+                                "sync_request",
+                                serde_json::json!({"server": agent.actor_id(), "client": their_actor_id, "req": req.iter().map(|(actor, needs)| serde_json::json!({
+                                    "actor": actor,
+                                    "needs": needs.iter().map(|need| match need {
+                                        SyncNeedV1::Full { versions } => serde_json::json!({"k": "full", "lo": versions.start().0, "hi": versions.end().0}),
+                                        SyncNeedV1::Partial { version, seqs } => serde_json::json!({"k": "partial", "v": version.0, "seqs": seqs.iter().map(|r| (r.start().0, r.end().0)).collect::<Vec<_>>()}),
+                                        SyncNeedV1::Empty { ts } => serde_json::json!({"k": "empty", "ts": ts.map(|t| t.to_string())}),
+                                    }).collect::<Vec<_>>()})).collect::<Vec<_>>()}),
+                            );
                             count += req
                                 .iter()
                                 .map(|(_, needs)| {
